@@ -581,6 +581,8 @@ def run(chk: Check):
     rule_a7_a8(chk, ir)
     rule_a9(chk, tr)
     rule_kind_guard(chk)
+    from .firstpass import rule_first_pass_raisers
+    rule_first_pass_raisers(chk, ir)
     from .x11 import rule_x11
     rule_x11(chk)
     rule_combinators(chk)
